@@ -338,3 +338,57 @@ def first_diff(a, b, path=""):
                 return d
         return None
     return None if a == b else f"{path}: {a!r} != {b!r}"
+
+
+# ----------------------------------------------------------------------------- process-global state of the package
+
+def _canon_global(v, depth=0):
+    if depth > 6:
+        return "..."
+    if isinstance(v, (int, float, bool, str, bytes)) or v is None:
+        return v
+    if isinstance(v, dict):
+        return sorted(((_canon_global(k, depth + 1).__repr__(), _canon_global(x, depth + 1)) for k, x in v.items()), key=lambda kv: kv[0])
+    if isinstance(v, (list, tuple)):
+        return [_canon_global(x, depth + 1) for x in v]
+    if isinstance(v, (set, frozenset)):
+        return sorted(repr(_canon_global(x, depth + 1)) for x in v)
+    if isinstance(v, type):
+        return "<class %s>" % v.__qualname__
+    if callable(v):
+        return "<callable %s>" % getattr(v, "__qualname__", type(v).__name__)
+    d = getattr(v, "__dict__", None)
+    if isinstance(d, dict):
+        return [type(v).__qualname__, _canon_global(d, depth + 1)]
+    try:
+        return [type(v).__qualname__, int(v)]
+    except Exception:
+        return type(v).__qualname__
+
+
+def global_state_digest(pkg="architecture_simulator"):
+    """canonical form of every mutable container held at MODULE level or CLASS level in the simulator package: the
+    process-global state that an inspection function, a parser or another simulation object could leak through"""
+    out = {}
+    for mname, mod in sorted(sys.modules.items()):
+        if mod is None or not (mname == pkg or mname.startswith(pkg + ".")):
+            continue
+        for k, v in list(vars(mod).items()):
+            if k.startswith("__"):
+                continue
+            if isinstance(v, (dict, list, set)):
+                out[f"{mname}.{k}"] = _canon_global(v)
+            elif isinstance(v, type) and getattr(v, "__module__", "") == mname:
+                for ck, cv in list(vars(v).items()):
+                    if ck.startswith("__"):
+                        continue
+                    if isinstance(cv, (dict, list, set)):
+                        out[f"{mname}.{v.__qualname__}.{ck}"] = _canon_global(cv)
+    return out
+
+
+def global_state_diff(before, after):
+    for k in sorted(set(before) | set(after)):
+        if before.get(k) != after.get(k):
+            return k
+    return None
